@@ -360,6 +360,12 @@ class Scenario:
                 self.pre_ai(author, f, repo)
                 self.stats["variant_repeat"] += 1
             d = self.edit_lines(lines, author, kinds, ck)
+            if not self.style(f).final_nl and before and lines and key(before[-1]) != key(lines[-1]):
+                # the file has no final newline: an edit that changes which line is last also changes the line terminator of the old
+                # and of the new last line - a whitespace-only change by this session of lines it did not write (finding D24 class)
+                for l in (before[-1], lines[-1]):
+                    if l in before and l in lines:
+                        self.ledger.ws_touch.setdefault(key(l), set()).add(author)
             mid = self.split_point(before, lines, d) if "split" in self.variant else None
             if mid is not None:
                 self.write(f, mid, repo)
